@@ -49,6 +49,10 @@ def gval(v):
         return "(VList false %s)" % gal.lst(gval(x) for x in v)
     if isinstance(v, list):
         return "(VList true %s)" % gal.lst(gval(x) for x in v)
+    if isinstance(v, str):
+        return "(VStr %s)" % gal.s(v)
+    if isinstance(v, dict):
+        return "(VDict false %s)" % gal.lst(gal.pair(gval(k), gval(x)) for k, x in v.items())
     raise ValueError("value outside the modelled universe: %r" % (v,))
 
 
@@ -73,6 +77,11 @@ def vtext(v):
         return str(v)
     if isinstance(v, (tuple, list)):
         return "[" + ", ".join(vtext(x) for x in v) + "]"
+    if isinstance(v, str):
+        assert v.isalpha() or v == "", v
+        return "'%s'" % v
+    if isinstance(v, dict):
+        return "{" + ", ".join("%s => %s" % (vtext(k), vtext(x)) for k, x in v.items()) + "}" if v else "dict()"
     raise ValueError(v)
 
 
@@ -88,12 +97,16 @@ def tojson(v):
     """values as JSON (tuples -> lists; nothing else in the universe needs care)"""
     if isinstance(v, (tuple, list)):
         return [tojson(x) for x in v]
+    if isinstance(v, dict):
+        return {"__d__": [[tojson(k), tojson(x)] for k, x in v.items()]}
     return v
 
 
 def fromjson(v):
     if isinstance(v, list):
         return tuple(fromjson(x) for x in v)
+    if isinstance(v, dict) and "__d__" in v:
+        return {fromjson(k): fromjson(x) for k, x in v["__d__"]}
     return v
 
 
@@ -130,6 +143,16 @@ def lam_body(l, x="$"):
         return "%s[%d]" % (x, l[1])
     if k == "const":
         return "%d" % l[1]
+    if k == "field":
+        return "%s.%s" % (x, l[1])
+    if k == "fieldgt":
+        return "%s.%s > %d" % (x, l[1], l[2])
+    if k == "strlt":
+        return "%s < '%s'" % (x, l[1])
+    if k == "strcat":
+        return "%s + '%s'" % (x, l[1])
+    if k == "strlen":
+        return "%s.len()" % x
     raise ValueError(l)
 
 
@@ -137,9 +160,14 @@ def lam_gal(l):
     k = l[0]
     name = {"id": "LId", "gt": "LGt", "lt": "LLt", "eq": "LEqZ", "neq": "LNeqZ", "isnull": "LIsNull",
             "modeq": "LModEq", "mod": "LMod", "add": "LAdd", "mul": "LMul", "pair": "LPair",
-            "pairmod": "LPairMod", "idx": "LIdx", "const": "LConst"}[k]
+            "pairmod": "LPairMod", "idx": "LIdx", "const": "LConst", "field": "LField", "fieldgt": "LFieldGt",
+            "strlt": "LStrLt", "strcat": "LStrCat", "strlen": "LStrLen"}[k]
     if k == "idx":
         return gal.app(name, gal.nat(l[1]))
+    if k in ("field", "strlt", "strcat"):
+        return gal.app(name, gal.s(l[1]))
+    if k == "fieldgt":
+        return gal.app(name, gal.s(l[1]), gal.z(l[2]))
     return gal.app(name, *[gal.z(a) for a in l[1:]])
 
 
@@ -301,6 +329,10 @@ def stage_apply_text(expr, sg, pr, alias=0):
                 "firstall": lambda: "[$m.first(), $m.toList()]",
                 "countsum": lambda: "[$m.count(), $m.sum(0)]"}[op[0]]()
         return "(let(m => %s%s) -> %s)" % (expr, ".memorize()" if memo else "", body)
+    if k == "groupByAggP":
+        body = pipeline_text("$", list(sg[3])) + [".len()", ".sum(0)", ".first(null)", ".toList()"][sg[4]]
+        agg = pr.wrap(body)
+        return m("groupBy", lt(sg[1], pr), lt(sg[2] if sg[2] is not None else ("id",), pr), agg)
     if k == "groupByAgg":
         agg = pr.wrap(["$.len()", "$.sum()", "$.first()"][sg[3]])
         return m("groupBy", lt(sg[1], pr), "aggregator => " + agg) if sg[2] is None else m("groupBy", lt(sg[1], pr), lt(sg[2], pr), agg)
@@ -453,6 +485,8 @@ def stage_gal(sg):
              "wheremax": lambda: "SelfWhereLtMax", "selmany": lambda: A("SelfSelectMany", gal.nat(op[1])),
              "firstall": lambda: "SelfFirstAll", "countsum": lambda: "SelfCountSum"}[op[0]]()
         return A("SSelf", t)
+    if k == "groupByAggP":
+        return A("SGroupByAggP", lam_gal(sg[1]), ol(sg[2] if sg[2] is not None else ("id",)), gal.lst(stage_gal(x) for x in sg[3]), gal.nat(sg[4]))
     if k == "groupByAgg":
         return A("SGroupByAgg", lam_gal(sg[1]), ol(sg[2]), gal.nat(sg[3]))
     if k == "attr":
@@ -678,6 +712,10 @@ def canon(r):
             return x
         if isinstance(x, (list, tuple)):
             return tuple(cv(t) for t in x)
+        if isinstance(x, str):
+            return x
+        if isinstance(x, dict):
+            return {cv(k): cv(t) for k, t in x.items()}
         raise ValueError("result outside the modelled universe: %r" % (x,))
     if isinstance(r, dict):
         return ("dict", [(cv(k), cv(v)) for k, v in r.items()])
@@ -693,6 +731,10 @@ def sort_key(v):
         return (1, int(v))
     if isinstance(v, int):
         return (2, v)
+    if isinstance(v, str):
+        return (2.5, v)
+    if isinstance(v, dict):
+        return (4, tuple((sort_key(k), sort_key(x)) for k, x in v.items()))
     return (3, tuple(sort_key(x) for x in v))
 
 
@@ -860,6 +902,7 @@ def pipeline_text(src_text, stages, probe=False, aliases=None):
 # typed random generation
 # ------------------------------------------------------------------------------
 INTS = list(range(-3, 10))
+STRS = ["", "a", "ab", "b", "ba", "abc", "c", "B"]
 
 
 def gen_value(rng, shape):
@@ -869,6 +912,10 @@ def gen_value(rng, shape):
         return None if rng.random() < 0.3 else rng.choice(INTS)
     if shape == "pairint":
         return (rng.choice(INTS[:8]), rng.choice(INTS[:8]))
+    if shape == "str":
+        return rng.choice(STRS)
+    if shape == "rec":
+        return {"a": rng.choice(INTS[:7]), "b": rng.choice(STRS)}
     r = rng.random()
     if r < 0.4:
         return rng.choice(INTS)
@@ -905,6 +952,14 @@ def gen_lam(rng, shape, want):
         preds = [("isnull",), ("eq", c), ("id",)]
         keys = [("idx", 0), ("idx", 1), ("const", c)]
         others = [("pair",), ("id",)]
+    elif shape == "str":
+        preds = [("strlt", rng.choice(STRS[1:])), ("isnull",), ("id",), ("eq", c)]
+        keys = [("id",), ("strlen",), ("id",), ("const", c)]
+        others = [("strcat", rng.choice(STRS)), ("pair",)]
+    elif shape == "rec":
+        preds = [("fieldgt", "a", c), ("isnull",), ("id",)]
+        keys = [("field", "a"), ("field", "b"), ("const", c)]
+        others = [("pair",), ("id",)]
     else:
         preds = [("isnull",), ("eq", c), ("neq", c), ("id",)]
         keys = [("const", c)]
@@ -930,6 +985,12 @@ def lam_shape(l, shape):
         return "pairint"
     if k == "pair":
         return "pairint" if shape == "int" else "other"
+    if k == "field":
+        return "int" if l[1] == "a" else "str"
+    if k == "strlen":
+        return "int"
+    if k == "strcat":
+        return "str"
     return "other"
 
 
@@ -1041,6 +1102,21 @@ def gen_stage(rng, kind, shape, n, allow_terminal=True, streaming_only=False, ce
         return ("splitAt", gen_pos(rng, n)), "seq", "other", 2
     if k in ("splitWhere", "sliceWhere"):
         return (k, gen_lam(rng, shape, "pred")), it, "other", n
+    if k == "groupByAgg" and shape == "int" and rng.random() < 0.35:
+        agg = []
+        for _ in range(rng.randrange(0, 3)):
+            a = rng.choice(["where", "select", "skip", "take", "reverse", "orderBy"])
+            if a == "where":
+                agg.append(("where", gen_lam(rng, "int", "pred")))
+            elif a == "select":
+                agg.append(("select", rng.choice([("add", 1), ("mul", 2), ("mod", 3)])))
+            elif a in ("skip", "take"):
+                agg.append((a, rng.randrange(0, 3)))
+            elif a == "reverse":
+                agg.append(("reverse",))
+            else:
+                agg.append(("orderBy", ("id",), rng.random() < 0.5))
+        return ("groupByAggP", gen_lam(rng, shape, "key"), rng.choice([None, ("add", 1)]), tuple(agg), rng.randrange(4)), it, "other", n
     if k == "groupByAgg" and shape == "int" and rng.random() < 0.4:
         return ("groupByLegacy", gen_lam(rng, shape, "key"), rng.choice([None, ("add", 1)]), rng.choice([0, 1, 2])), it, "other", n
     if k == "groupByAgg":
@@ -1131,8 +1207,17 @@ def gen_set_stage(rng, shape):
     return (k, tuple(gen_values(rng, shape, rng.randrange(0, 4))))
 
 
-def gen_dict(rng, n):
-    return tuple((rng.choice([None] + INTS[:8]), gen_value(rng, rng.choice(["int", "int", "other"]))) for _ in range(n))
+def gen_nested(rng, depth):
+    d = {}
+    for _ in range(rng.randrange(0, 3)):
+        k = rng.choice([1, 2, 3])
+        d[k] = gen_nested(rng, depth - 1) if depth > 0 and rng.random() < 0.4 else rng.choice([rng.choice(INTS), (rng.choice(INTS[:5]),), "a"])
+    return d
+
+
+def gen_dict(rng, n, nested=0.0):
+    return tuple((rng.choice([None] + INTS[:8]),
+                  gen_nested(rng, 2) if rng.random() < nested else gen_value(rng, rng.choice(["int", "int", "other"]))) for _ in range(n))
 
 
 def gen_dict_stage(rng):
@@ -1155,7 +1240,7 @@ def gen_pipeline(rng, maxlen=4):
     r = rng.random()
     stages = []
     if r < 0.62:
-        shape = rng.choice(["int", "int", "int", "intnull", "pairint", "other"])
+        shape = rng.choice(["int", "int", "int", "intnull", "pairint", "other", "str", "rec"])
         n = rng.choice([0, 0, 1, 2, 3, 3, 4, 5, 6, 8])
         vals = tuple(gen_values(rng, shape, n))
         kind = rng.choice(["seq", "iter"])
@@ -1183,7 +1268,7 @@ def gen_pipeline(rng, maxlen=4):
         vals = tuple(gen_values(rng, shape, rng.randrange(0, 7)))
         src, kind, n = ("set", vals), "set", len(vals)
     else:
-        src, kind, shape, n = ("dict", gen_dict(rng, rng.randrange(0, 6))), "dict", "other", 4
+        src, kind, shape, n = ("dict", gen_dict(rng, rng.randrange(0, 6), nested=rng.choice([0.0, 0.0, 0.5]))), "dict", "other", 4
     if src[0] in ("tuple", "iter") and shape == "int" and rng.random() < 0.06:
         src = ("recs", src[0], src[1])
         stages.append(("attr",))
@@ -1193,11 +1278,14 @@ def gen_pipeline(rng, maxlen=4):
         d2 = []
         for a, b in src[1][:3]:
             if rng.random() < 0.7:
-                d2.append((a, tuple(gen_values(rng, "int", rng.randrange(0, 3))) if isinstance(b, tuple) else rng.choice(INTS)))
+                if isinstance(b, dict):
+                    d2.append((a, gen_nested(rng, 2) if rng.random() < 0.85 else rng.choice(INTS)))
+                else:
+                    d2.append((a, tuple(gen_values(rng, "int", rng.randrange(0, 3))) if isinstance(b, tuple) else rng.choice(INTS)))
         d2 += [(a, b) for a, b in gen_dict(rng, rng.randrange(0, 2))]
         lm = rng.choice([None, None, ("add2",), ("snd",), ("fst",)])
         im = rng.choice([None, None, ("fst",), ("snd",), ("pair2",)])
-        stages.append(("mergeWithX", tuple(d2), lm, im, rng.choice([None, None, 0, 1, 2])))
+        stages.append(("mergeWithX", tuple(d2), lm, im, rng.choice([None, None, 0, 1, 2, 3])))
     budget = rng.randrange(1, maxlen + 1)
     while budget > 0:
         budget -= 1
@@ -1311,6 +1399,8 @@ def stages_json(stages):
             return {"noseed": 1}
         if isinstance(x, tuple):
             return [enc(t) for t in x]
+        if isinstance(x, dict):
+            return {"__d__": [[enc(k), enc(t)] for k, t in x.items()]}
         return x
     return [enc(s) for s in stages]
 
@@ -1319,6 +1409,8 @@ def stages_from_json(js):
     def dec(x):
         if isinstance(x, dict) and x.get("noseed"):
             return NOSEED
+        if isinstance(x, dict) and "__d__" in x:
+            return {dec(k): dec(t) for k, t in x["__d__"]}
         if isinstance(x, list):
             return tuple(dec(t) for t in x)
         return x
